@@ -20,8 +20,12 @@ where
         true => seq_map_col(iter, map, collected),
         false => {
             let offset = collected.len();
+            // if a worker panics, the bag is only partially written and might contain gaps;
+            // it is leaked in that case, since dropping it would drop positions that were never written
+            let collected = std::mem::ManuallyDrop::new(collected);
             let task = |c| task(&iter, &map, &collected, offset, c);
             let _num_spawned = Runner::run(params, ParTask::Collect, &iter, &task);
+            let collected = std::mem::ManuallyDrop::into_inner(collected);
             unsafe { collected.into_inner().unwrap_only_if_counts_match() }
         }
     }
